@@ -70,6 +70,8 @@ def make_node(module_cfg, init=True, equipment_id='eq', description='node'):
     from frappy.secnode import SecNode
     from frappy.protocol.dispatcher import Dispatcher
     init_config()
+    import frappy.secnode as _sn
+    _sn.get_version = lambda *a, **k: 'verif'   # git describe is not available in the sandbox
     srv = FakeServer(dict(module_cfg))
     srv.secnode = SecNode('node', LOG, {'equipment_id': equipment_id}, srv)
     srv.secnode.add_secnode_property('description', description)
